@@ -198,9 +198,11 @@ impl SubscriptionActor {
                     serde_json::json!({
                         "si": self.internal_id,
                         "max": max_count,
+                        "nout": result.as_ref().ok().map(|pulled| pulled.len()),
                         "out": result.as_ref().ok().map(|pulled| {
                             pulled
                                 .iter()
+                                .take(if crate::verif::light() { 3 } else { usize::MAX })
                                 .map(|p| {
                                     serde_json::json!({
                                         "ack": p.ack_id().verif_value(),
@@ -435,6 +437,14 @@ impl SubscriptionActor {
 impl SubscriptionActor {
     /// The projection of the actor's state that the verification hooks report.
     fn verif_state(&self, recorder: &crate::verif::Recorder) -> serde_json::Value {
+        if crate::verif::light() {
+            return serde_json::json!({
+                "deleted": self.deleted,
+                "light": true,
+                "nb": self.backlog.len(),
+                "nl": self.outstanding.len(),
+            });
+        }
         serde_json::json!({
             "deleted": self.deleted,
             "backlog": self
